@@ -202,8 +202,17 @@ fn full_oracle(mt: &str, x: &str, mutation: &str, scope: &str, obs: &mut Obs) ->
     match plugin_publish(&m.json) {
         Err(e) => {
             if !e.is_panic() {
+                // the situation is named when it is the known one: the library's own serialisation of the
+                // parsed message carries a field with no content (an option-B value whose members are all
+                // null), which publish_mt drops and then cannot place when the slot is mandatory
+                let (_, toks) = crate::refs::tokenize(&crate::props::c10::block4_of(&m.mt_message));
+                let situation = toks
+                    .iter()
+                    .find(|t| t.content.trim().is_empty())
+                    .map(|t| format!("|empty-serialised:{}", t.tag))
+                    .unwrap_or_default();
                 out.push(viol(
-                    format!("C08|{scope}|publish-rejected"),
+                    format!("C08|{scope}|publish-rejected{situation}"),
                     format!(
                         "publish_mt rejects the JSON of a parsed message: {}",
                         e.text()
